@@ -67,6 +67,23 @@ func (m *Mutex) Unlock() {
 	default:
 		panic("sync: unlock of unlocked mutex")
 	}
+	if f := afterUnlock.Load(); f != nil {
+		(*f)()
+	}
+}
+
+// afterUnlock, when set by a world, is called by every Unlock right after the lock has
+// been released: a lock hand-over is a point where another goroutine may legitimately run
+// before this one continues, and the world may park the caller there.
+var afterUnlock atomic.Pointer[func()]
+
+// SetAfterUnlock installs (or, with nil, removes) the hand-over hook.
+func SetAfterUnlock(f func()) {
+	if f == nil {
+		afterUnlock.Store(nil)
+		return
+	}
+	afterUnlock.Store(&f)
 }
 
 // RWMutex: writers hold w for the whole critical section; readers pass through w and
